@@ -44,12 +44,13 @@ func GenWorld(r *rand.Rand, tmp string, prefix string, o WorldOpts) (*World, err
 		var s *Seg
 		var err error
 		if o.Jumbo && i == 0 {
-			docs, sch := JumboBatch(r, 2100+r.Intn(1200), fmt.Sprintf("%s.j%d", prefix, i), tagDV)
+			docs, sch := JumboBatch(r, JumboSize(r, 2100, 1200), fmt.Sprintf("%s.j%d", prefix, i), tagDV)
 			AddExactTerms(r, docs, "exact", ExactSpec(len(docs)))
 			w.Schema = sch
 			s, err = BuildSeg(docs, []uint32{1025, 1024, 100}[r.Intn(3)])
 		} else if o.Jumbo {
-			docs, _ := JumboBatch(r, 300+r.Intn(900), fmt.Sprintf("%s.j%d", prefix, i), tagDV)
+			docs, _ := JumboBatch(r, JumboSize(r, 300, 900), fmt.Sprintf("%s.j%d", prefix, i), tagDV)
+			AddExactTerms(r, docs, "exact", ExactSpec(len(docs)))
 			s, err = BuildSeg(docs, []uint32{1025, 1024, 64}[r.Intn(3)])
 		} else {
 			sch := w.Schema
